@@ -25,6 +25,7 @@ func checkC05(c *Ctx) {
 	// not looked up by key) merges identities that differ (shared with C07 O4)
 	c.checkDerivationThroughRegistry("O1 through-registry")
 	c.checkSubscopeSource("O1 scope-by-canonical-key")
+	c.checkRootIdentityBeforeRegistration("O1 root-identity-first")
 	// the tags a scope carries are the tags its key was built from: right-most map wins in the merge
 	// exactly as in the key writer (shared with C04 O3)
 	if merge := c.fn("", "", "mergeRightTags"); merge != nil {
@@ -967,4 +968,75 @@ func (c *Ctx) returnsDerivedFromKeyWriter(g, kw *ssa.Function) bool {
 		}
 	}
 	return n > 0
+}
+
+// checkRootIdentityBeforeRegistration: the registry constructor registers the root under the key of
+// (root.prefix, root.tags). Both must have their final value when the constructor is called: in the
+// function that builds the root, every store into the root's prefix / tags dominates the call that
+// builds the registry - otherwise the root is registered under another identity's key, and a
+// derivation that ends at the root's own identity creates a second scope for it.
+func (c *Ctx) checkRootIdentityBeforeRegistration(rule string) {
+	fTags, fPrefix, fReg := c.field("", "scope", "tags"), c.field("", "scope", "prefix"), c.field("", "scope", "registry")
+	scopeT := c.named("", "scope")
+	if fTags == nil || fPrefix == nil || fReg == nil || scopeT == nil {
+		c.missing(rule, "tally.scope.{tags,prefix,registry}")
+		return
+	}
+	n := 0
+	for _, fn := range c.funcsOfPkg("") {
+		// the root constructor: stores a call result into <local scope>.registry where the call is handed that scope
+		var regCall *ssa.Call
+		var root *ssa.Alloc
+		instrsOf(fn, func(in ssa.Instruction) {
+			st, ok := in.(*ssa.Store)
+			if !ok {
+				return
+			}
+			f, base := addrField(st.Addr)
+			al, isAl := canon(base).(*ssa.Alloc)
+			if f != fReg || !isAl || al.Parent() != fn {
+				return
+			}
+			if call, isCall := stripConv(st.Val).(*ssa.Call); isCall {
+				for _, a := range call.Call.Args {
+					if canon(a) == ssa.Value(al) {
+						regCall, root = call, al
+					}
+				}
+			}
+		})
+		if regCall == nil {
+			continue
+		}
+		n++
+		key := c.fnKey(fn)
+		c.sawFunc(key)
+		okAll := true
+		seen := map[*types.Var]bool{}
+		instrsOf(fn, func(in ssa.Instruction) {
+			st, ok := in.(*ssa.Store)
+			if !ok {
+				return
+			}
+			f, base := addrField(st.Addr)
+			if (f != fTags && f != fPrefix) || canon(base) != ssa.Value(root) {
+				return
+			}
+			seen[f] = true
+			if !dominates(st, regCall) {
+				okAll = false
+				c.bad(rule, key+":"+f.Name(), st.Pos(), "the root's "+f.Name()+" is assigned after (or around) the call that builds the registry: the registry registers the root under the key of its identity at that moment, so a derivation that ends at the root's real identity (Tagged(nil), Tagged of the root's own tags) is not found and a second scope with the root's identity is created", c.describe(st))
+			}
+		})
+		for _, f := range []*types.Var{fTags, fPrefix} {
+			if !seen[f] {
+				okAll = false
+				c.bad(rule, key+":"+f.Name(), regCall.Pos(), "the root's "+f.Name()+" is never assigned before the registry is built")
+			}
+		}
+		if okAll {
+			c.ok(rule, key, regCall.Pos(), "prefix and tags of the root have their final value when the registry (which registers the root under their key) is built")
+		}
+	}
+	c.floor(rule, n, 1)
 }
